@@ -280,6 +280,12 @@ def make_adapter(spec, classes):
         cls = HeaderAdder
         if spec.get("nodescr"):
             cls = _nodescr(HeaderAdder)
+        if spec.get("falsy"):
+            # an application adapter that is also a container (its session values live in it) and is empty - falsy -
+            # when it is attached
+            cls = type("SessionHeaders", (dict, cls), {"__doc__": "an adapter that is a (still empty) dict as well",
+                                                       "__hash__": object.__hash__,
+                                                       "__init__": lambda self, name, value: HeaderAdder.__init__(self, name, value)})
         return cls(spec["name"], spec["value"])
     if k == "wrap":
         cls = RespWrapper
